@@ -114,6 +114,20 @@ def bad_rows(prop):
     return out
 
 
+def combine_search(*fns):
+    """several searches for one property: each is asked in turn; True as soon as one reported something"""
+    fns = [f for f in fns if f]
+    def search(ctx, out):
+        found = False
+        for f in fns:
+            try:
+                found = bool(f(ctx, out)) or found
+            except Exception as e:            # a diagnosis helper must never hide the violation itself
+                ctx.notes.append(f'search helper failed: {e!r}')
+        return found
+    return search
+
+
 def table_search(prop, dynamic=None):
     """search function for report_lake_failure: name the changed rows; `dynamic(ctx, rows)` may turn
     them into a concrete failing input (returns True when it reported a violation with a replay)"""
